@@ -114,7 +114,7 @@ def build(rng, mix, n=12, consistent=True, drop_zero_assets=False):
         token = rng.choice(["ETH", "ETH", "BTC"])
         hours = 3
         dw = W.DeribitWorld(rng, hours=hours, n_instr=rng.randint(1, 5), token=token, size_kind=rng.choice(["int", "float", "mixed"]),
-                            closed_prob=0.15)
+                            closed_prob=0.15, dyadic=rng.random() < 0.3)
         dm = dw.market("deribit")
         # minute index covering the hours, so that most bars are closed bars
         index = [dw.hours[0] + timedelta(minutes=20 * i) for i in range(hours * 3)]
